@@ -260,11 +260,19 @@ func cmdCheck(args []string) int {
 			engineErrors++
 			continue
 		}
+		for _, w := range r.Stale {
+			// the function's other obligations are still generated and checked: a change that removes an anchored call
+			// is reported through the obligations it breaks, and the stale anchor is reported as well
+			fmt.Printf("ENGINE-ERROR stale-contract: %s [function %s]\n", w, shortKey(fc.Key))
+			engineErrors++
+		}
 		r.File, r.BodyHash = L.bodyHash(fn)
 		frs = append(frs, r)
 	}
 	// lemmas of packages involved
-	if engineErrors > 0 {
+	// functions that could not be brought under their contract give no verdict (exit 2 unless another function
+	// reports a violation); the remaining functions are checked all the same
+	if engineErrors > 0 && len(frs) == 0 {
 		return 2
 	}
 	pick := func(o *Obligation) bool {
@@ -463,6 +471,9 @@ func cmdCheck(args []string) int {
 		if exit == 0 {
 			exit = 2
 		}
+	}
+	if engineErrors > 0 && exit == 0 {
+		exit = 2
 	}
 	if total == 0 && exit == 0 {
 		fmt.Printf("ENGINE-ERROR vacuous: zero obligations for %s\n", *prop)
